@@ -153,8 +153,14 @@ func sortKVs(kvs []KV) []KV {
 
 var keyAlphabet = []byte("abcdefghijklmnopqrstuvwxyz.=;0123456789\x00\xff")
 
+// lengths whose one-byte length prefix is itself a special byte: '=' (61), ';' (59), NUL,
+// LF, the neighbours of those, and the limits
+var specialLens = []int{59, 61, 58, 60, 62, 10, 13, 32, 127, 128, 254, 255}
+
 func genKey(r *Rng) []byte {
-	switch r.Intn(10) {
+	switch r.Intn(12) {
+	case 10:
+		return r.Bytes(specialLens[r.Intn(len(specialLens))])
 	case 0:
 		return r.Bytes(1)
 	case 1:
@@ -171,7 +177,9 @@ func genKey(r *Rng) []byte {
 	}
 }
 func genVal(r *Rng) []byte {
-	switch r.Intn(8) {
+	switch r.Intn(10) {
+	case 8:
+		return r.Bytes(specialLens[r.Intn(len(specialLens))])
 	case 0:
 		return nil
 	case 1:
@@ -504,12 +512,13 @@ func genRouterAddr(r *Rng) RouterAddrV {
 }
 
 type RouterInfoV struct {
-	Ident     Ident
-	Published uint64
-	Addrs     []RouterAddrV
-	PeerSize  int
-	Opts      []KV
-	Sig       []byte
+	Ident      Ident
+	Published  uint64
+	Addrs      []RouterAddrV
+	PeerHashes []byte
+	PeerSize   int
+	Opts       []KV
+	Sig        []byte
 }
 
 func (ri RouterInfoV) Encode() []byte {
@@ -517,7 +526,7 @@ func (ri RouterInfoV) Encode() []byte {
 	for _, a := range ri.Addrs {
 		b = cat(b, a.Encode())
 	}
-	return cat(b, []byte{byte(ri.PeerSize)}, encodeMapping(ri.Opts), ri.Sig)
+	return cat(b, []byte{byte(ri.PeerSize)}, ri.PeerHashes, encodeMapping(ri.Opts), ri.Sig)
 }
 func genRouterInfo(r *Rng) RouterInfoV {
 	ri := RouterInfoV{Ident: genRouterIdent(r), Published: r.U64() >> uint(r.Intn(30))}
